@@ -34,7 +34,7 @@ RULE = ("case = (model/option, execution mode, deformation class, seed) -> one r
         "numbers x3.7, NaN, cleared) and only then trace each model (single call, batch of 8, batch of 11 -> retraces): each must equal the model "
         "built from a fresh dict literal and satisfy the rest-state / objectivity / isotropy clauses.")
 ASSUMPTIONS = [
-    "the identities are compared up to a rounding bound: 1e-11*(|W|+mu|E|^2) + 16*eps*(mu+kappa)*|E| (the rotated input QF-I is itself "
+    "the identities are compared up to a rounding bound: 1e-11*(|W|+mu|E|^2) + 64*eps*(mu+kappa)*|E| (the rotated input QF-I is itself "
     "only known to eps) + 64*eps*(mu+kappa) for models whose formula subtracts O(1) quantities (I1bar-3, J^2/2-1/2-log J: neo-Hookean, "
     "Gent, equilibrium branch of the viscoelastic models); observed worst ratio is recorded under closest_calls",
     "the library factories only do arithmetic on the numeric entries of the property dictionary, so passing them as traced values "
@@ -59,6 +59,10 @@ REQUIRED = {
         "j2_points_yielding": 200, "j2_points_elastic": 200,
         "configs_reference_checked": 2 * len(Z.NAMES), "concrete_constant_replicas": len(Z.NAMES),
         # round 2: absolute unit systems and caller-side aliasing of the options dictionary
+        "yield_sweep_batches": 60, "j2_small_yield_strain_points_beyond_yield": 300, "j2_small_yield_strain_points_elastic": 100,
+        "class:yield_sweep/single": 30, "class:yield_sweep/batched": 30, "class:yield_sweep_history/single": 16,
+        "entry_point_evals:compute_energy_density": 10000, "entry_point_evals:compute_output_energy_density": 300,
+        "entry_point_evals:compute_strain_energy_density": 300,
         "scale_sweep_batches": 400, "batches_with_random_unit_system": 50,
         "aliased_models_evaluated:LinearElastic": 9, "aliased_models_evaluated:Neohookean": 6, "aliased_models_evaluated:Gent": 3,
         "aliased_models_evaluated:J2Plastic": 36, "aliased_models_evaluated:HyperViscoelastic": 3,
@@ -110,6 +114,19 @@ def build_cases(tier, seed):
                 for i in range(n_hist):
                     cases.append({"cls": "history/" + mode, "cfg": name, "mode": mode, "group": group, "cost": 15.0,
                                   "seed": derive_seed(seed, PROPERTY, "history", name, mode, i)})
+    # J2 yield-strain sweep (Y0/E over 1e-7..1e-2, independent of the modulus scale), amplitudes 0.3x..30x the yield strain
+    for name in Z.NAMES:
+        if not (Z.is_j2(name) and Z.CONFIGS[name]["finite"]):
+            continue
+        for mode in ("single", "batched"):
+            classes = ["distinct", "simple_shear", "uniaxial_inplane", "two_equal"] if mode == "single" else ["distinct", "simple_shear"]
+            for i in range(4 if quick else 60):
+                cases.append({"cls": "yield_sweep/" + mode, "cfg": name, "mode": mode, "group": "%s:%s" % (name, mode), "nb": 1 if quick else 4,
+                              "yield_sweep": True, "sweep_class": classes[i % len(classes)], "cost": 4.0,
+                              "seed": derive_seed(seed, PROPERTY, "yield_sweep", name, mode, i)})
+        for i in range(2 if quick else 30):
+            cases.append({"cls": "yield_sweep_history/single", "cfg": name, "mode": "single", "group": "%s:single" % name, "yield_sweep": True,
+                          "cost": 15.0, "seed": derive_seed(seed, PROPERTY, "yield_sweep_history", name, i)})
     # one mutable options dictionary shared by all models of a family and scribbled over before first use
     for grp in Z.ALIAS_GROUPS:
         for i in range(1 if quick else 3):
@@ -144,6 +161,13 @@ def _fns(name, mode):
     if Z.CONFIGS[name]["family"] == "PhaseFieldThreshold":
         Ws = Z.energy_fn(name, "strain")
         out["Wstrain"] = jax.jit(Ws) if mode == "single" else jax.jit(jax.vmap(Ws, (0, 0, None, None, 0)))
+    # every other energy-valued entry point of the returned model object (same arguments, same points, same tolerance)
+    out["extra"] = {}
+    for ep in Z.energy_entry_points(name):
+        if ep == "compute_energy_density":
+            continue
+        We = Z.energy_fn(name, ep)
+        out["extra"][ep] = jax.jit(We) if mode == "single" else jax.jit(jax.vmap(We, (0, 0, None, None, 0)))
     _CACHE[key] = out
     return out
 
@@ -176,7 +200,7 @@ def _eval(fn, mode, H, S, dt, cvec, A):
 
 
 def _allowed_energy(name, mu, kappa, W, e2):
-    a = 1e-11 * (abs(W) + mu * e2) + 16.0 * EPS * (mu + kappa) * math.sqrt(e2)
+    a = 1e-11 * (abs(W) + mu * e2) + 64.0 * EPS * (mu + kappa) * math.sqrt(e2)
     if name in CANCELLING:
         a += 64.0 * EPS * (mu + kappa)
     return a
@@ -230,6 +254,19 @@ def _check_points(res, name, mode, cls, cvec, dt, F, Q, S, SQ, A, e2, tag=""):
     wq = _eval(f["W"], mode, QF - I, S, dt, cvec, A)
     wr = _eval(f["W"], mode, FQ - I, SQ, dt, cvec, AQ)
     p0 = _eval(f["P"], mode, F - I, S, dt, cvec, A)
+    res.count("entry_point_evals:compute_energy_density", n)
+    for ep, fe in f["extra"].items():
+        a0 = _eval(fe, mode, F - I, S, dt, cvec, A)
+        aq = _eval(fe, mode, QF - I, S, dt, cvec, A)
+        ar = _eval(fe, mode, FQ - I, SQ, dt, cvec, AQ)
+        for i in range(n):
+            allowed = _allowed_energy(name, mu, kappa, a0[i] if onp.isfinite(a0[i]) else 0.0, e2[i])
+            det = {"cfg": name, "mode": mode, "i": i, "entry_point": ep, "W": a0[i], "F": F[i], "Q": Q[i], "cvec": list(cvec)}
+            m = _mech(name, mode, cls, F[i], QF[i])
+            res.bound("objectivity_QF@" + ep + tag + (KF if m else ""), abs(aq[i] - a0[i]), allowed, dict(det, WQF=aq[i]), m)
+            m = _mech(name, mode, cls, F[i], FQ[i])
+            res.bound("isotropy_FQ@" + ep + tag + (KF if m else ""), abs(ar[i] - a0[i]), allowed, dict(det, WFQ=ar[i]), m)
+        res.count("entry_point_evals:" + ep, n)
     for i in range(n):
         allowed = _allowed_energy(name, mu, kappa, w0[i] if onp.isfinite(w0[i]) else 0.0, e2[i])
         det = {"cfg": name, "mode": mode, "i": i, "W": w0[i], "strain": math.sqrt(e2[i]), "cvec": list(cvec)}
@@ -295,6 +332,11 @@ def _run_reference(res, case, rng):
             wfn = f["W"] if ph == 0.0 else f["Wstrain"]
             w = _eval(wfn, mode, H, S, dt, cvec, A)
             p = _eval(f["P"], mode, H, S, dt, cvec, A)
+            if ph == 0.0:
+                for ep, fe in f["extra"].items():
+                    we = _eval(fe, mode, H, S, dt, cvec, A)
+                    for j in zero:
+                        res.bound("reference_energy@" + ep, abs(we[j]), 1e-14 * mu, {"cfg": name, "mode": mode, "slot": j, "entry_point": ep, "W0": we[j]})
             for j in zero:
                 det = {"cfg": name, "mode": mode, "slot": j, "phase": ph, "cvec": list(cvec), "W0": w[j], "P0": p[j]}
                 res.bound("reference_energy", abs(w[j]), 1e-14 * mu, det)
@@ -333,6 +375,8 @@ def _j2_regime_counts(res, name, cvec, logs_list):
         d = onp.asarray(logs) - onp.mean(logs)
         mises = 2.0 * mu * math.sqrt(1.5) * float(onp.linalg.norm(d))
         res.count("j2_points_yielding" if mises > 1.05 * cvec[2] else "j2_points_elastic")
+        if cvec[2] / cvec[0] < 1e-4:
+            res.count("j2_small_yield_strain_points_beyond_yield" if mises > 1.05 * cvec[2] else "j2_small_yield_strain_points_elastic")
 
 
 def _run_class(res, case, rng):
@@ -349,10 +393,12 @@ def _run_scale_sweep(res, case, rng):
 
 def _run_class_batch(res, case, rng, scale=None, cls=None):
     name, mode = case["cfg"], case["mode"]
-    cls = cls or case["cls"].split("/")[0]
+    cls = cls or case.get("sweep_class") or case["cls"].split("/")[0]
     ys = None
     if Z.is_j2(name):
         ys = [None, 10.0][int(rng.integers(2))]  # half of the cases purely elastic (yield strain 10), half with realistic yield strains
+        if case.get("yield_sweep"):
+            ys = float(Z.loguniform(rng, 1e-7, 1e-2))  # yield strain Y0/E swept independently of the modulus scale
     cvec = Z.sample_consts(name, rng, yield_strain=ys)
     if scale is None:
         sc = Z.random_case_scale(rng)
@@ -365,7 +411,14 @@ def _run_class_batch(res, case, rng, scale=None, cls=None):
     res.count("band:%s:objectivity_evals" % band, B)
     dt = Z.sample_dt(name, cvec, rng)
     smax = 0.45 if name == "gent" else 1.0
-    pts = [Z.stretch_point(cls, rng, 1e-3, smax) for _ in range(B)]
+    smin = 1e-3
+    if case.get("yield_sweep"):
+        # amplitudes tied to the yield strain: 0.3x .. 30x the deviatoric strain norm at first yield (elastic, barely yielding, yielding)
+        mu_, _k = Z.moduli(name, cvec)
+        eyd = cvec[2] / (math.sqrt(6.0) * mu_)
+        smin, smax = 0.3 * eyd, min(30.0 * eyd, 1.0)
+        res.count("yield_sweep_batches")
+    pts = [Z.stretch_point(cls, rng, smin, smax) for _ in range(B)]
     F = onp.array([p["F"] for p in pts])
     cvec = _gent_fix(name, cvec, F)
     Q = onp.array([Z.random_rotation(rng)[0] for _ in range(B)])
@@ -387,7 +440,12 @@ def _run_history(res, case, rng):
     is outside the D8 key in both modes."""
     name, mode = case["cfg"], case["mode"]
     cfg = Z.CONFIGS[name]
-    cvec = Z.sample_consts(name, rng)
+    ysw = bool(case.get("yield_sweep"))
+    cvec = Z.sample_consts(name, rng, yield_strain=float(Z.loguniform(rng, 1e-7, 1e-2)) if ysw else None)
+    smin_h, smax_h = 1e-3, 0.3
+    if ysw:
+        eyd = cvec[2] / (math.sqrt(6.0) * Z.moduli(name, cvec)[0])
+        smin_h, smax_h = 0.3 * eyd, min(30.0 * eyd, 0.3)
     Sfn = _state_new(name)
     F, Q, S, SQ, e2 = [], [], [], [], []
     tries = 0
@@ -405,7 +463,7 @@ def _run_history(res, case, rng):
                  "state_before": (states[k - 1] if k > 0 else Z.initial_state(name)).tolist()})
             continue
         st = states[-1]
-        pt = Z.stretch_point("distinct", rng, 1e-3, 0.3)
+        pt = Z.stretch_point("distinct", rng, smin_h, smax_h)
         if cfg["state"] == "j2_small":  # seth hill: additive plastic strain, strain measure of C itself
             Fi = pt["F"]
         else:
@@ -414,7 +472,7 @@ def _run_history(res, case, rng):
         stq = Z.rotate_state(name, st, Qi)
         gaps = [Z.rel_gap(C) for C in Z.eig_tensors(name, Fi - onp.eye(3), st)] + \
                [Z.rel_gap(C) for C in Z.eig_tensors(name, Fi @ Qi - onp.eye(3), stq)]
-        if min(gaps) < 1e-3:
+        if min(gaps) < 1e-3 and not (ysw and mode == "single"):  # the gap guard only protects the batched mode (D8)
             res.count("history_points_skipped_small_gap")
             continue
         inel = Z.state_tensors(name, st)[0]
@@ -529,7 +587,7 @@ def run_case(case):
     kind = case["cls"].split("/")[0]
     if kind == "reference":
         _run_reference(res, case, rng)
-    elif kind == "history":
+    elif kind in ("history", "yield_sweep_history"):
         _run_history(res, case, rng)
     elif kind == "scale_sweep":
         _run_scale_sweep(res, case, rng)
